@@ -267,6 +267,16 @@ class Program:
                     b.targets[0], ast.Name
                 ):
                     ci.class_attrs[b.targets[0].id] = b.value
+                elif isinstance(b, ast.Assign) and len(b.targets) == 1 and isinstance(b.targets[0], (ast.Tuple, ast.List)) and all(isinstance(e, ast.Name) for e in b.targets[0].elts):
+                    # a, b, c = <iterable> in a class body: name k is bound to element k of the iterable
+                    names_, v_ = [e.id for e in b.targets[0].elts], b.value
+                    if isinstance(v_, (ast.Tuple, ast.List)) and len(v_.elts) == len(names_):
+                        for n_, e_ in zip(names_, v_.elts):
+                            ci.class_attrs[n_] = e_
+                    else:
+                        for k_, n_ in enumerate(names_):
+                            sub = ast.Subscript(value=ast.Call(func=ast.Name(id="list", ctx=ast.Load()), args=[v_], keywords=[]), slice=ast.Constant(k_), ctx=ast.Load())
+                            ci.class_attrs[n_] = ast.fix_missing_locations(ast.copy_location(sub, v_))
         elif isinstance(st, ast.Assign):
             if len(st.targets) == 1 and isinstance(st.targets[0], ast.Name):
                 mod.assigns[st.targets[0].id] = st.value
